@@ -26,4 +26,4 @@ echo "== revert $P $C rc=$rc"; head -4 seeded/reverted-fixes/$P-$C.txt | cut -c1
 rm -f replays/$P-*.json
 git -C /repo worktree remove --force $WT
 T=$(python3 -c "import hashlib;print(hashlib.sha256('$WT'.encode()).hexdigest()[:8])")
-rm -rf /verif/.cache/target-$T /verif/.cache/harness-$T /verif/.cache/coq-$T
+rm -rf /verif/.cache/target-$T /verif/.cache/harness-$T /verif/.cache/coq-$T /verif/.cache/evidence-$T
